@@ -105,13 +105,28 @@ TECHNIQUE = ("Coq proof about labelled transition systems of cpr.Seq (under conc
              "loader, by induction over arbitrary schedules; a verified trace checker run on hook traces of the real binary under "
              "perturbed schedules; census of loaded directives; the Go race detector for memory-level races")
 LEVEL_TEXT = ("Theorems C19_ownership, C19_order, C19_no_loss_dup, C19_deadlock_free, C19_terminates, C19_error, C19_seq_refines "
-              "(for every number of stages and items, every failure oracle and every schedule), trace_ok_sound / "
-              "trace_ok_spec_accepts / trace_ok_complete, and for the loader C19_loader_terminates, C19_load_multiset "
-              "(acyclic include graphs) and C19_loader_cycle_unbounded are proved in Coq, closed under the global context.  "
+              "(for every number of stages and items, every failure oracle and every schedule) are proved in Coq, closed under "
+              "the global context.  The trace checker is exact: trace_ok_sound / trace_ok_spec_accepts (it decides the "
+              "declarative specification), trace_ok_complete (it accepts the trace of every run), C19_trace_ok_exact (every "
+              "accepted event list is the trace of a run from the initial state, for some number of items and some oracle) "
+              "and C19_trace_exact (for given n, m and oracle the traces of the runs are exactly the accepted lists that "
+              "respect the oracle).  For that, trace_ok now also checks the back-pressure of the unbuffered channels (stage i "
+              "begins item k only after stage i+j has ended k-j items); trace_ok_loose_exact_refuted exhibits an event list "
+              "that the earlier checker accepted and no run emits.  The loader is modelled twice: with one consumer "
+              "(C19_loader_terminates, C19_load_multiset, C19_loader_cycle_unbounded) and as journal.FromPath's three stages - "
+              "parser tasks, model.FromStream's dispatcher with its inner pool of conversion tasks, the builder: "
+              "C19_frompath_terminates (at most 3W+4 effective steps; no reachable state blocks and the workers all return, "
+              "from closure alone, whatever fails in parsing and conversion), C19_frompath_loads_once (an error-free return "
+              "has added every file's directives to the builder exactly once), C19_frompath_error (the returned error is that "
+              "of a stage function that failed; any failure is reported), C19_frompath_nodrain_refuted (if FromStream returns "
+              "at its first error a parser blocks in Push forever) and C19_frompath_builder_error_refuted (a failing "
+              "Builder.Add would block the conversion tasks forever; unreachable today, findings/C19-builder-error-latent-hang.md).  "
               "The tie to the binary: the extracted trace_ok accepts the hook trace of every Seq invocation of every run, "
               "successful runs are complete (every stage saw every day) and load exactly the generated directives, failing "
               "runs exit non-zero with empty stdout within the timeout, and the race detector reports nothing.")
 LEVEL_NOTE = ("Partial: data races on Go memory are only searched for (race detector, sampled schedules); Go channel, select and "
-              "context semantics are assumed as modelled; model.FromStream's inner pool and journal.Builder.Add are folded "
-              "into the loader's consumer; the converse of trace_ok_complete (every accepted trace is a run) is not proved.  "
-              "Trusted: Coq kernel, extraction, drv_c19.ml, harness c19.go, the add-only hooks.")
+              "context semantics are assumed as modelled (unbuffered send/receive is a rendezvous: the back-pressure clause "
+              "of trace_ok rests on it); C19_frompath_terminates assumes that Builder.Add does not fail (true of the code: "
+              "Add rejects only directive types that ParseDirective never produces) - the refuted variant shows the "
+              "assumption is needed; the include-cycle check of parseRec is not in the loader models (they assume an acyclic "
+              "include graph).  Trusted: Coq kernel, extraction, drv_c19.ml, harness c19.go, the add-only hooks.")
